@@ -97,6 +97,7 @@ def parseOp (ws : List String) (r : Role) : Option Op :=
   | ["recv", _], .C => some .recv
   | ["try_recv", _], .C => some .tryRecv
   | ["recv_timeout0", _], .C => some .recvTimeout0
+  | ["recv_timeout", _], .C => some .recvTimeout
   | ["len", _], _ => some .len
   | ["is_empty", _], _ => some .len
   | ["close", _], _ => some .close
@@ -127,7 +128,25 @@ def doStep (st : St) (r : Role) (l : Label) (o : Option Obj) (ord : Option Ord) 
         | none => .error "model=value"
       else .ok ({ st with s := s' }, [tag])
 
-def stepA (st : St) (t : Nat) (kind obj ord old new ok : String) : Except String (St × List String) :=
+/-- The timed receive's deadline test is not a visible action: the trace shows only which way it went. The thread is
+at the point where it would wait (`park` when registered, `rgLock` when not); if the next thing it does is not that —
+registered: a `lock` (unregister) instead of `parkt`; not registered: the call returns — the deadline had passed and the
+model takes its `deadline` step first. -/
+def deadlineFirst (st : St) (r : Role) (kind : String) : St :=
+  let l := st.s.loc r
+  let passed :=
+    l.tm && l.k == .rL &&
+      ((l.m == .park && kind != "parkt") || (l.m == .rgLock && kind == "return"))
+  if passed then
+    match Fv.Chan.SpscB.step st.s r .deadline with
+    | some s' => { st with s := s' }
+    | none => st
+  else st
+
+def stepA (st0 : St) (t : Nat) (kind obj ord old new ok : String) : Except String (St × List String) :=
+  let st := match lookup st0.tidRole t with
+    | some r => deadlineFirst st0 r kind
+    | none => st0
   if kind == "spawn" || kind == "join" || kind == "exit" || kind == "yield" || kind == "wake" then .ok (st, [])
   else
   match lookup st.tidRole t with
@@ -153,6 +172,12 @@ def stepA (st : St) (t : Nat) (kind obj ord old new ok : String) : Except String
     | "park", _ =>
       if old == "1" then doStep st r .park none none old new "A:park"
       else doStep st r .spurious none none old new "A:park-spurious"
+    | "parkt", _ =>
+      -- `park_timeout` returned: with the token (unparked), or because the scheduler fired the timeout — the model's
+      -- park step that returns without a token; only the timed receive parks this way
+      if !(st.s.loc r).tm then .error "model=park_timeout-outside-the-timed-receive"
+      else if old == "1" then doStep st r .park none none old new "A:parkt"
+      else doStep st r .spurious none none old new "A:parkt-timeout"
     | "unpark", _ =>
       -- target thread must be the thread running the other role
       let tgt := ((obj.drop 1).toString).toNat?
@@ -215,6 +240,7 @@ def step (st : St) (op _res : List String) : Except String (St × List String) :
       match lookup st.tidRole t with
       | none => .error "return-without-call"
       | some r =>
+        let st := deadlineFirst st r "return"
         let opk := (lookup st.opKind r).getD ""
         let st1 := { st with tidRole := st.tidRole.filter (fun p => p.1 != t) }
         if opk == "capacity" then
